@@ -145,7 +145,7 @@ def run_mcs(jobs, par=4):
         return list(ex.map(lambda j: run_mc(j[0], j[1], workers=w), jobs))
 
 
-def write_seeds(n=64, nbytes=32):
+def write_seeds(n=64, nbytes=48):
     """seeded random byte strings for the plan modules (read there with ndJsonDeserialize)"""
     import random
     r = random.Random(seed())
@@ -177,6 +177,27 @@ def gen_plan(module, cfg, tag, extra_env=None, timeout=1800):
         raise ToolError("plan generation failed (%s):\n%s" % (module, r.stdout[-3000:]))
     n = sum(1 for _ in open(outp))
     return outp, n
+
+
+_isqrt_cache = {}
+
+
+def gen_isqrt_inputs(stride):
+    """Elligator inputs r0 and decoder inputs s whose inner sqrt_ratio_zeta call sees a ratio with a prescribed
+    2-primary component: ratios from SqrtPlan.tla (TLC), polynomial equations solved by tools/isqrt_inputs.py.
+    returns (ell_file, dec_file, stats)"""
+    if stride in _isqrt_cache:
+        return _isqrt_cache[stride]
+    plan, n = gen_plan("SqrtPlan.tla", "cfg/SqrtPlan.cfg", "sqrt_for_isqrt")
+    ell = os.path.join(WORK, "isqrt_ell_%d.ndjson" % stride)
+    dec = os.path.join(WORK, "isqrt_dec_%d.ndjson" % stride)
+    r = subprocess.run([sys.executable, os.path.join(VERIF, "tools", "isqrt_inputs.py"), plan, ell, dec, str(stride), str(seed())],
+                       capture_output=True, text=True, timeout=3600)
+    if r.returncode != 0:
+        raise ToolError("isqrt_inputs.py failed: " + r.stderr[-2000:])
+    stats = json.loads(r.stdout.strip().splitlines()[-1])
+    _isqrt_cache[stride] = (ell, dec, stats)
+    return _isqrt_cache[stride]
 
 
 def gen_lazy_plan(cfg="cfg/LazyPlan.cfg"):
